@@ -17,6 +17,7 @@ ENV = dict(os.environ, CARGO_NET_OFFLINE="true", CARGO_TARGET_DIR=TARGET)
 TRUSTED_BASE = [
     "Coq 8.16.1 kernel incl. vm_compute (no native_compute); no axioms: every property theorem is 'Closed under the global context' (checked by Print Assumptions on this run)",
     "hand-written Gallina model of src/{codec,frame,service,client,server,slave}; tokio-util FramedImpl, futures-util send, std from_str_radix modelled by hand (modelled, not verified)",
+    "tools/translate.py (strict regex translator of the table-like Rust code -- function/exception code tables, RTU length tables, PDU size tables, constants -- into Gallina data, regenerated on every run; its obligations gen/Ob*.v are re-proved each run; a piece it cannot parse is skipped and reported in coverage.source_translation.skipped)",
     "correspondence check: Rust harness (scripted transport, panic capture, printers), OCaml driver, Python generators/oracles",
     "Coq extraction with ExtrOcamlBasic only (bool/option/unit/list/prod/sumbool directives); cross-checked by in-kernel vm_compute on a sample each run; OCaml 4.13.1",
     "rustc/cargo, the safety of safe Rust; tokio runtime, sockets, ptys, timers, allocator are not modelled",
@@ -38,7 +39,8 @@ def sh(cmd, cwd=None, timeout=3600, env=None, inp=None):
 # ------------------------------------------------------------------------------------------
 def build_coq(targets=None):
     """(Re)build the Coq development (full .vo).  Returns (ok, log)."""
-    if not os.path.exists(os.path.join(COQ, "Makefile")):
+    mk, cp = os.path.join(COQ, "Makefile"), os.path.join(COQ, "_CoqProject")
+    if not os.path.exists(mk) or os.path.getmtime(mk) < os.path.getmtime(cp):
         rc, o, e = sh("coq_makefile -f _CoqProject -o Makefile", cwd=COQ)
         if rc != 0:
             return False, o + e
@@ -230,11 +232,30 @@ def theorems_of(prop):
     return re.findall(r"^\s*Theorem\s+(\w+)", txt, flags=re.M)
 
 
+def translate_step():
+    """Regenerate coq/gen/Generated.v from the Rust source under REPO (tools/translate.py).  Returns its JSON summary."""
+    rc, o, e = sh([sys.executable, os.path.join(VERIF, "tools", "translate.py"), REPO, os.path.join(COQ, "gen", "Generated.v")], timeout=120)
+    try:
+        return json.loads(o.strip().split("\n")[-1])
+    except ValueError:
+        return dict(error=(o + e)[-400:], translated={}, skipped={})
+
+
+def gen_theorems_of(prop):
+    p = os.path.join(COQ, "gen", "Ob%s.v" % prop)
+    if not os.path.exists(p):
+        return []
+    txt = re.sub(r"\(\*.*?\*\)", "", open(p).read(), flags=re.S)
+    return re.findall(r"^\s*Theorem\s+(\w+)", txt, flags=re.M)
+
+
 def proof_step(prop):
-    """Build props/<prop>.vo and everything it needs, then print the assumptions of every
-    theorem of the props file.  Returns dict(ok, obligations, discharged, detail, broken)."""
+    """Regenerate the translated tables from the source, build props/<prop>.vo and everything it needs, build the
+    obligations gen/Ob<prop>.v (generated table = model table) when the property has some, then print the assumptions
+    of every theorem.  Returns dict(ok, obligations, discharged, detail, broken, translation)."""
     t0 = time.time()
     res = dict(ok=False, obligations=0, discharged=0, detail="", broken=[], assumptions={})
+    res["translation"] = translate_step()
     hits = grep_forbidden()
     if hits:
         res["detail"] = "forbidden constructs: " + "; ".join(hits[:5])
@@ -252,16 +273,42 @@ def proof_step(prop):
         m = re.findall(r'File "\./([^"]+)", line (\d+)', log)
         res["broken"] = ["%s:%s" % x for x in m[:3]] or ["coq-build"]
         return res
+    # the obligations that tie the tables REGENERATED from the source to the model's tables
+    gthms = gen_theorems_of(prop)
+    gen_ok = True
+    if gthms:
+        gen_ok, glog = build_coq(["gen/Ob%s.vo" % prop])
+        if not gen_ok:
+            m = re.findall(r'File "\./([^"]+)", line (\d+)', glog)
+            where = ["%s:%s" % x for x in m[:3]] or ["gen/Ob%s.v" % prop]
+            # name the obligation that failed
+            names = []
+            for f, ln in m[:3]:
+                try:
+                    lines = open(os.path.join(COQ, f)).read().split("\n")[:int(ln)]
+                    t = [re.match(r"\s*Theorem\s+(\w+)", l) for l in lines]
+                    t = [x.group(1) for x in t if x]
+                    if t:
+                        names.append(t[-1])
+                except (OSError, ValueError):
+                    pass
+            res["broken"].append("source-translation(%s): the table translated from the source differs from the model's" % ",".join(names or where))
+            res["detail"] = "translated table differs from the model: " + glog[-600:]
+        res["obligations"] += len(gthms)
     d = os.path.join(CACHE, "kernel")
     os.makedirs(d, exist_ok=True)
     name = "Assum_%s_%d" % (prop, os.getpid())
     path = os.path.join(d, name + ".v")
+    if gthms and gen_ok:
+        thms = thms + gthms
     with open(path, "w") as f:
         f.write("From TM Require Import %s.\n" % prop)
+        if gthms and gen_ok:
+            f.write("From TM Require Import Ob%s.\n" % prop)
         for t in thms:
             f.write('Print Assumptions %s.\n' % t)
     args = ["coqc", "-noglob"]
-    for sub in ("model", "proofs", "props"):
+    for sub in ("model", "proofs", "props", "gen"):
         args += ["-Q", os.path.join(COQ, sub), "TM"]
     rc, o, e = sh(args + [path], timeout=600)
     for ext in (".v", ".vo", ".vok", ".vos"):
@@ -387,9 +434,10 @@ def write_evidence(prop, tier, seed, t0, proof, coverage_extra, violations, assu
     cov = dict(
         obligations=proof.get("obligations", 0),
         discharged=proof.get("discharged", 0),
-        checker_cmd="make -C coq props/%s.vo (coqc 8.16.1, full .vo) + coqc Print Assumptions per theorem; ./check %s --tier %s" % (prop, prop, tier),
+        checker_cmd="tools/translate.py (tables regenerated from the Rust source) + make -C coq props/%s.vo gen/Ob%s.vo (coqc 8.16.1, full .vo; the gen target only for C03 C04 C09 C11 C19) + coqc Print Assumptions per theorem; ./check %s --tier %s" % (prop, prop, prop, tier),
         trusted_base=TRUSTED_BASE,
         theorem_assumptions=proof.get("assumptions", {}),
+        source_translation=proof.get("translation", {}),
     )
     cov.update(coverage_extra)
     ev = dict(property_id=prop, tier=tier, seed=seed, level="proof", coverage=cov,
